@@ -153,11 +153,17 @@ theorem sniff_tcp_sound (script : List Ev) (n : Bytes) (h : (sniffTcp script).re
 
 /-! ## HTTP/1 -/
 
-/-- **Completeness (HTTP).** For every request head with a known method, arriving in one read,
+/-- `_partial`: the property speaks of every HTTP/1 request head; `HttpHead.WF` restricts the method
+to the sixteen tokens of `common.IsValidHttpMethod` (GET POST PUT PATCH DELETE COPY HEAD OPTIONS LINK
+UNLINK PURGE LOCK UNLOCK PROPFIND CONNECT TRACE), as the code does: a head with any other method
+(MKCOL, MOVE, PROPPATCH, REPORT, SEARCH, …) is answered "not applicable" even in one read — open
+finding `c06-http-method-outside-list`, reproduced by a directed harness scenario.
+
+**Completeness (HTTP).** For every request head with a known method, arriving in one read,
 `SniffHttp` answers the value of the first `Host` header (any case of the name, white space
 trimmed), "not found" when there is none or it is empty — headers in any order, any other
 headers, any body. -/
-theorem http_host_found (h : HttpHead) (hwf : h.WF) : sniffHttp (encodeHead h) = hostSpec h.headers :=
+theorem http_host_found_partial (h : HttpHead) (hwf : h.WF) : sniffHttp (encodeHead h) = hostSpec h.headers :=
   sniffHttp_encodeHead h hwf
 
 /-- **Soundness (HTTP).** Whatever the bytes, a name reported by `SniffHttp` is the trimmed,
@@ -185,7 +191,7 @@ example : exampleHead.WF ∧ hostSpec exampleHead.headers = .ok (str "a.example:
 
 /-- An HTTP/1 request head that arrives in one read is recognised by `SniffTcp`: the answer is the
 `Host` value through `NormalizeDomain`, whatever follows in the script. -/
-theorem sniff_tcp_http_one_read (h : HttpHead) (hwf : h.WF) (tail : List Ev) :
+theorem sniff_tcp_http_one_read_partial (h : HttpHead) (hwf : h.WF) (tail : List Ev) :
     (sniffTcp (.data (encodeHead h) :: tail)).result =
       match hostSpec h.headers with
       | .ok d => .ok (normalizeDomain d)
